@@ -177,8 +177,8 @@ def decide(desc, primary='cvc5', timeout_s=None, cross=False):
 def sizes_for(tier, measure):
     if tier == 'thorough':
         if measure == 'COSINE':
-            return list(range(1, 11)) + [16, 25]
-        return list(range(1, 13)) + [16, 20, 25]
+            return list(range(1, 9)) + [12, 25]
+        return list(range(1, 11)) + [12, 16, 25]
     return [1, 2, 3, 4, 5, 7, 9, 25]
 
 
